@@ -35,9 +35,22 @@ MonNext ==
                         [name |-> o.layers[i].name, blob |-> o.layers[i].blob, bheld |-> TRUE, refs |-> 0, fin |-> FALSE,
                          closed |-> o.layers[i].closed, meta |-> o.layers[i].meta, fsd |-> o.layers[i].fsd,
                          files |-> o.layers[i].files]]
+        \* bad is history: a check of this blob failed although layer and blob were open (so the probe failed), and
+        \* no check has passed and no Refresh has succeeded since
         /\ blobs' = [i \in 1..Len(o.blobs) |->
                         [name |-> o.blobs[i].name, refs |-> 0, fin |-> FALSE, closed |-> o.blobs[i].closed,
-                         hd |-> o.blobs[i].hd, conn |-> TRUE, files |-> o.blobs[i].files]]
+                         hd |-> o.blobs[i].hd,
+                         conn |-> IF "conn" \in DOMAIN o.blobs[i] THEN o.blobs[i].conn ELSE TRUE,
+                         fresh |-> IF "fresh" \in DOMAIN o.blobs[i] THEN o.blobs[i].fresh ELSE TRUE,
+                         bad |-> IF Has("cb") /\ Ev.cb = i /\ Ev.ev \in CheckActs \cup {"Refresh"}
+                                 THEN (IF Ev.ok THEN FALSE
+                                       ELSE \/ Ev.ev # "Refresh" /\ ~(i <= Len(blobs) /\ blobs[i].closed)
+                                            \/ i <= Len(blobs) /\ blobs[i].bad)
+                                 ELSE \* ... and lastCheck was not stamped by a data fetch that succeeded
+                                      /\ Ev.ev # "Reset" /\ i <= Len(blobs) /\ blobs[i].bad
+                                      /\ ~("fresh" \in DOMAIN o.blobs[i] /\ o.blobs[i].fresh /\ ~blobs[i].fresh),
+                         fetched |-> TRUE,
+                         files |-> o.blobs[i].files]]
         /\ fsd' = o.fsd /\ hd' = o.hd
         /\ hs' = [h \in H |-> [pc |-> o.hs[h].pc, n |-> o.hs[h].n, l |-> o.hs[h].l, b |-> o.hs[h].b,
                                fd |-> o.hs[h].fd, hdp |-> o.hs[h].hdp]]
@@ -48,6 +61,7 @@ MonNext ==
                 arg |-> IF Has("arg") THEN Ev.arg ELSE TRUE,
                 ok |-> IF Has("ok") THEN Ev.ok ELSE TRUE,
                 ret |-> IF Has("ret") THEN Ev.ret ELSE "",
+                cb |-> IF Has("cb") THEN Ev.cb ELSE 0,
                 ids |-> IF Has("ids") THEN Ev.ids ELSE <<>>,
                 opens |-> IF Has("opens") THEN Ev.opens ELSE 1,
                 reads |-> IF Has("reads") THEN Ev.reads ELSE [h \in H |-> TRUE]]
